@@ -522,6 +522,7 @@ func main() {
 	violations := 0
 	inconclusive := 0
 	transient := 0
+	hangConfirmed := false
 	extraFailures := 0
 	var lines []string
 	known := readKnownFindings()
@@ -598,8 +599,9 @@ func main() {
 				continue
 			}
 			seenReplay[path] = true
-			if violations >= 3 {
+			if violations >= 3 || (r.exit == 3 && hangConfirmed) {
 				// enough confirmed reproductions for one run; further failing shards are listed, not replayed
+				// (one confirmed hang is enough: every replay of a hang costs its full time limit)
 				_ = os.Remove(path)
 				extraFailures++
 				continue
@@ -630,10 +632,10 @@ func main() {
 			}
 			replayLimit := 2 * time.Minute
 			if r.exit == 3 {
-				replayLimit = time.Minute // a hang: the replay must exceed a minute on its own (twice)
+				replayLimit = 40 * time.Second // a hang: the replay, alone in its process, must exceed this (twice)
 				attempts = 2
 				if r.check.Race || r.check.Flaky {
-					attempts = 5 // a schedule-dependent deadlock need not form on every run
+					attempts = 4 // a schedule-dependent deadlock need not form on every run
 				}
 			}
 			hangs := 0
@@ -675,6 +677,9 @@ func main() {
 						}
 					}
 				}
+			}
+			if confirmed && r.exit == 3 {
+				hangConfirmed = true
 			}
 			if confirmed {
 				violations++
